@@ -178,6 +178,7 @@ type Stmt struct {
 	Decl    bool
 	E       *Expr
 	Elems   []*Expr
+	Cond    *Expr // line: a line condition on a PLAIN line (its meaning is left open by the properties)
 }
 
 func nonNilTags(t []string) []string {
@@ -192,6 +193,9 @@ func (s Stmt) MarshalJSON() ([]byte, error) {
 	switch s.K {
 	case "line":
 		m["text"], m["tags"] = s.Text, nonNilTags(s.Tags)
+		if s.Cond != nil {
+			m["cond"] = s.Cond
+		}
 	case "opts":
 		opts := make([]Option, len(s.Opts))
 		for i, o := range s.Opts {
@@ -230,12 +234,16 @@ func (s *Stmt) UnmarshalJSON(b []byte) error {
 		Decl    bool     `json:"decl"`
 		E       *Expr    `json:"e"`
 		Elems   []*Expr  `json:"elems"`
+		Cond    *Expr    `json:"cond"`
 	}
 	if err := json.Unmarshal(b, &m); err != nil {
 		return err
 	}
 	*s = Stmt{K: m.K, Text: m.Text, Tags: m.Tags, Opts: m.Opts, Clauses: m.Clauses, Var: m.Var, Op: m.Op,
 		Decl: m.Decl, E: m.E, Elems: m.Elems}
+	if m.K == "line" {
+		s.Cond = m.Cond
+	}
 	return nil
 }
 
@@ -259,6 +267,9 @@ type Case struct {
 	Readers []int  `json:"readers"` // number of nodes per reader
 	Seed    string `json:"seed"`
 	Storer  string `json:"storer"` // "default" | "recording" | "inmemory"
+	// LineCond: the program has plain lines with a line condition (the trace specification then
+	// accepts both readings of such a line: condition ignored, or a false condition skips the line)
+	LineCond bool `json:"linecond"`
 }
 
 func (c *Case) body(id int) []Stmt {
